@@ -33,6 +33,10 @@ SCRIPTS = {
     "S11": (b'require ["vacation","imap4flags","relational"];\nif header :count "gt" "a" "1" { addflag "x"; vacation :days 2 text:\nbye\n.\n; }\n',
             ["vacation", "imap4flags", "relational"], False),
     "S12": (b'if anyof (header :is "a" "b", not exists ["c"]) { discard; } else { keep; }\n', [], False),
+    # capability strings that parametrise other arguments (RFC 5228 2.7.3 "comparator-"): must not stick to the process
+    "S13": (b'require ["relational", "comparator-i;ascii-numeric"];\nif header :value "ge" :comparator "i;ascii-numeric" "x" "1" { keep; }\n',
+            ["relational", "comparator-i;ascii-numeric"], False),
+    "S14": (b'require "relational";\nif header :value "ge" :comparator "i;ascii-numeric" "x" "1" { keep; }\n', ["relational"], False),
 }
 FSOPS = {"F1": "", "F2": "regex", "F3": "", "F4": "", "F5": "relational"}
 
@@ -175,7 +179,7 @@ def run(prop, tier, seed):
     # import the library in the parent (pristine: nothing parsed, nothing built) so that children are cheap forks
     from . import sieve_impl, fs_impl  # noqa
     machinery = []
-    plans = [(2, list(SCRIPTS), list(FSOPS)), (3, ["S2", "S4", "S7", "S9", "S10", "S11"], ["F2", "F4"])] if tier == "quick" else \
+    plans = [(2, list(SCRIPTS), list(FSOPS)), (3, ["S2", "S4", "S7", "S9", "S10", "S11", "S13", "S14"], ["F2", "F4"])] if tier == "quick" else \
             [(3, list(SCRIPTS), list(FSOPS)), (4, ["S2", "S6", "S7", "S9", "S10"], ["F2", "F5", "F4"])]
     hists = []
     states = trans = 0
